@@ -18,7 +18,7 @@ from fractions import Fraction
 
 from .. import worker
 from .. import core, obs, seeds
-from ..ref import calref
+from ..ref import calref, tzref
 from . import c04
 
 ID = "C13"
@@ -266,6 +266,87 @@ def _check_interval_forms(acc, mods, fa, dur, ds, dur_case):
             acc.mismatch("interval", kind, dict(case, s=s), got, want)
 
 
+def check_interval_zone(acc, mods, z, fa, dur):
+    """start/duration and duration/end read in a named zone (tz option) where the duration crosses an offset change:
+    the missing endpoint is start.add() / end.subtract() with the duration's (normalised) components - C04's model."""
+    pendulum, fns = mods
+    comp = c04.components(dur)
+    ta = "%04d-%02d-%02dT%02d:%02d:%02d" % tuple(fa[:6])
+    ds = render([(k, v) for k, v in (("Y", dur.get("years", 0)), ("Mo", dur.get("months", 0)), ("D", dur.get("days", 0)),
+                                     ("H", dur.get("hours", 0)), ("Mi", dur.get("minutes", 0)), ("S", dur.get("seconds", 0))) if v])
+    kind0, inst0 = tzref.normalize(tzref.zone(z), tuple(fa), 0)
+    if kind0 != "unique":
+        return
+    here = obs.expected_render(z, inst0)
+    for s, sign, form in ((f"{ta}/{ds}", 1, "start/duration"), (f"{ds}/{ta}", -1, "duration/end")):
+        other = c04.expected(z, tuple(fa), comp, sign)
+        if other is None:
+            continue
+        want = ("Interval",) + ((here[0], here[1], other[0], other[1]) if sign == 1 else (other[0], other[1], here[0], here[1]))
+        acc.c["evaluations"] += 1
+        acc.c["transitions"] += 1
+        try:
+            r = pendulum.parse(s, tz=z)
+            got = (type(r).__name__, obs.fields(r.start), obs.offset_s(r.start), obs.fields(r.end), obs.offset_s(r.end))
+        except ValueError:
+            got = ("ValueError",)
+        except Exception as e:  # noqa: BLE001
+            got = (type(e).__name__, str(e)[:60])
+        if got != want:
+            acc.mismatch("interval", form + "/named-zone", {"kind": "ivz", "z": z, "fa": list(fa), "dur": dur, "s": s}, got, want)
+
+
+def _shapes(f):
+    """Spellings of one UTC / fixed-offset endpoint: (text, fields, offset)."""
+    y, m, d, hh, mi, ss, us = f
+    date, time = "%04d-%02d-%02d" % (y, m, d), "%02d:%02d:%02d" % (hh, mi, ss)
+    out = [(f"{date}T{time}Z", (y, m, d, hh, mi, ss, 0), 0),
+           (f"{date}T{time}.{us:06d}Z", f, 0),
+           (f"{date}T{time},{us // 1000:03d}Z", (y, m, d, hh, mi, ss, us // 1000 * 1000), 0),
+           (f"{date}T{time}+00:00", (y, m, d, hh, mi, ss, 0), 0),
+           (f"{date}T{time}.{us:06d}+01:00", f, 3600),
+           (f"{date}T{time}-0930", (y, m, d, hh, mi, ss, 0), -34200),
+           ("%04d%02d%02dT%02d%02d%02dZ" % (y, m, d, hh, mi, ss), (y, m, d, hh, mi, ss, 0), 0),
+           (f"{date} {time}Z", (y, m, d, hh, mi, ss, 0), 0)]
+    if ss == 0:
+        out.append((f"{date}T{hh:02d}:{mi:02d}Z", (y, m, d, hh, mi, 0, 0), 0))
+    return out
+
+
+def check_interval_shapes(acc, mods, fa, fb):
+    """start/end strings whose two endpoints are written in different (complete) spellings: exactly those endpoints."""
+    pendulum, fns = mods
+    for sa, ea, oa in _shapes(fa):
+        for sb, eb, ob in _shapes(fb):
+            s = f"{sa}/{sb}"
+            acc.c["evaluations"] += 1
+            acc.c["transitions"] += 1
+            try:
+                r = pendulum.parse(s)
+                got = (type(r).__name__, obs.fields(r.start), obs.offset_s(r.start), obs.fields(r.end), obs.offset_s(r.end))
+            except ValueError:
+                got = ("ValueError",)
+            except Exception as e:  # noqa: BLE001
+                got = (type(e).__name__, str(e)[:60])
+            want = ("Interval", tuple(ea), oa, tuple(eb), ob)
+            if got != want:
+                acc.mismatch("interval", "start/end/mixed-spellings", {"kind": "shapes", "fa": list(fa), "fb": list(fb), "s": s}, got, want)
+    # date-only endpoints in both spellings
+    for da in ("%04d-%02d-%02d" % fa[:3], "%04d%02d%02d" % fa[:3]):
+        for db in ("%04d-%02d-%02d" % fb[:3], "%04d%02d%02d" % fb[:3]):
+            acc.c["evaluations"] += 1
+            try:
+                r = pendulum.parse(f"{da}/{db}")
+                got = (type(r).__name__, (r.start.year, r.start.month, r.start.day), (r.end.year, r.end.month, r.end.day))
+            except ValueError:
+                got = ("ValueError",)
+            except Exception as e:  # noqa: BLE001
+                got = (type(e).__name__, str(e)[:60])
+            if got != ("Interval", tuple(fa[:3]), tuple(fb[:3])):
+                acc.mismatch("interval", "start/end/mixed-date-spellings", {"kind": "shapes", "fa": list(fa), "fb": list(fb), "s": f"{da}/{db}"},
+                             got, ("Interval", tuple(fa[:3]), tuple(fb[:3])))
+
+
 # ---- seeds -------------------------------------------------------------------------------------------------
 
 def frac_strings(thorough):
@@ -349,6 +430,27 @@ def run_shard(shard):
                 check_interval(acc, mods, tuple(fa), dur, None)
                 acc.c["nontrivial"] += 1
         acc.sample({"interval": "2020-01-31T08:30:15Z/P1M"})
+    elif k == "zone-intervals":
+        durs = [{"hours": 36}, {"minutes": 2160}, {"hours": 25}, {"days": 1, "hours": 12}, {"hours": 23, "minutes": 59, "seconds": 3661},
+                {"days": 1}, {"months": 1, "hours": 30}, {"seconds": 90000}, {"hours": 1}, {"hours": 48}]
+        for z, days in (("Europe/Paris", ((2021, 3, 27), (2021, 10, 30), (2021, 3, 28), (2021, 6, 1))),
+                        ("America/New_York", ((2021, 3, 13), (2021, 11, 6))), ("Australia/Lord_Howe", ((2021, 4, 3), (2021, 10, 2)))):
+            for d in days:
+                for hh in (0, 12, 23):
+                    fa = d + (hh, 0, 0, 0)
+                    acc.c["states"] += 1
+                    for dur in durs:
+                        acc.c["nontrivial"] += 1
+                        check_interval_zone(acc, mods, z, fa, dur)
+        acc.sample({"interval_in_named_zone": "parse('2021-03-27T12:00:00/PT36H', tz='Europe/Paris')"})
+    elif k == "shapes":
+        pts = [(2020, 1, 1, 10, 0, 0, 500000), (2020, 1, 1, 12, 0, 30, 123456), (2021, 12, 31, 23, 59, 0, 1000), (2007, 11, 13, 0, 0, 0, 250000)]
+        for fa in pts:
+            for fb in pts:
+                acc.c["states"] += 1
+                acc.c["nontrivial"] += 1
+                check_interval_shapes(acc, mods, fa, fb)
+        acc.sample({"interval_spellings": "2020-01-01T10:00:00.500000Z/2020-01-01T12:00:30Z"})
     return acc.result()
 
 
@@ -361,6 +463,10 @@ def replay_case(case, acc):
             check_duration(acc, mods, [tuple(c) for c in case["comps"]], tuple(case["frac"]) if case["frac"] else None, kind)
     elif case["kind"] == "rej":
         check_reject(acc, mods, case["s"], case["form"])
+    elif case["kind"] == "ivz":
+        check_interval_zone(acc, mods, case["z"], tuple(case["fa"]), case["dur"])
+    elif case["kind"] == "shapes":
+        check_interval_shapes(acc, mods, tuple(case["fa"]), tuple(case["fb"]))
     else:
         check_interval(acc, mods, tuple(case["fa"]), case["dur"], None)
 
@@ -386,6 +492,8 @@ def plan(tier, seed):
               for hh in (0, 8, 23)]
     for ch in seeds.chunks(starts, 6):
         shards.append({"kind": "intervals", "starts": ch})
+    shards.append({"kind": "shapes"})
+    shards.append({"kind": "zone-intervals"})
     return [({"ext": 1, "tz": "sys"}, shards), ({"ext": 0, "tz": "sys"}, shards)]
 
 
